@@ -91,6 +91,27 @@ def tree_key():
     return _tree_key
 
 
+_harness_key = None
+
+
+def harness_key():
+    """sha over the framework's own sources: campaigns are rebuilt when the framework changes"""
+    global _harness_key
+    if _harness_key is None:
+        h = hashlib.sha256()
+        for sub in ("gen", "vlib", "harness"):
+            for root, dirs, fs in os.walk(os.path.join(VERIF, sub)):
+                dirs[:] = sorted(d for d in dirs if d not in ("__pycache__", "target"))
+                for f in sorted(fs):
+                    if f.endswith((".py", ".rs", ".toml", ".wgsl")):
+                        fp = os.path.join(root, f)
+                        h.update(fp.encode())
+                        with open(fp, "rb") as fh:
+                            h.update(fh.read())
+        _harness_key = h.hexdigest()[:10]
+    return _harness_key
+
+
 class Lock:
     def __init__(self, name):
         os.makedirs(WORK, exist_ok=True)
@@ -135,6 +156,7 @@ serde_json = "1"
 syn = {{ version = "2", features = ["full"] }}
 prettyplease = "0.2"
 libc = "0.2"
+quote = "1"
 
 [profile.dev]
 debug = 1
